@@ -144,6 +144,11 @@ class RawServer(object):
             conn.server_send(struct.pack(">I", self.plan.get("oversize_len", 0x80000000)), label="net.s2c.oversize")
             conn.server_send(b"\0" * 65536, label="net.s2c.oversize_tail")
             conn.oversize_at = self.clock.seconds()
+        elif kind == "short_frame":
+            # a frame too short to carry a correlation id (rid = its 0..3 content bytes, hex)
+            content = bytes.fromhex(rid)
+            self.sent.append((self.clock.seconds(), conn.id, content, "short_frame"))
+            conn.server_send(struct.pack(">i", len(content)) + content, label="net.s2c.short_frame")
         else:
             self.send_frame(conn, rid, kind, ghostable=True)
 
@@ -262,14 +267,33 @@ def pattern_scenario(seed):
     ids = rng.sample(range(1, 2 ** 31 - 1), n)
     kind = rng.choice(("lost_with_cancelled", "lost_with_cancelled", "close_cancels_sibling", "close_cancels_sibling",
                        "lost_then_close", "disconnect_window", "disconnect_window", "flush_on_connect",
-                       "flush_on_connect"))
+                       "flush_on_connect", "odd_ids", "odd_ids"))
     t0 = [round(rng.choice((0.0, 0.0, 0.01, 0.03)) * k, 4) for k in range(n)]
     actions = [[t0[k], "req", i, True] for k, i in enumerate(ids)]
     on_fire, behaviour, cuts, connect = {}, [], {}, ["accept"] * 12
     end = "heal"
     horizon = 3.0
     force_latency = None
-    if kind == "flush_on_connect":
+    injections = []
+    if kind == "odd_ids":
+        # correlation ids at the edges of int32 (negative ones included: the broker client takes what it is given),
+        # and frames too short to carry an id at all - the bytes they do carry spell the id of a request in flight
+        pool = [0, 7, 258, 65537, -1, -2, -7, -2 ** 31, 2 ** 31 - 1, -65536, 2 ** 24 + 3]
+        ids = rng.sample(pool, n)
+        t0 = [round(0.01 * k, 4) for k in range(n)]
+        actions = [[t0[k], "req", i, True] for k, i in enumerate(ids)]
+        short = rng.random() < 0.6
+        for i in ids:
+            behaviour.append([i, 0, ["delay", 0.5] if short else (["now"] if rng.random() < 0.6 else ["delay", 0.05])])
+            behaviour.append([i, 1, ["now"]])
+            behaviour.append([i, 2, ["now"]])
+        if short:
+            for _ in range(rng.choice((1, 1, 2))):
+                i = rng.choice(ids)
+                raw = struct.pack(">i", i)
+                content = rng.choice((b"", raw[3:], raw[2:], raw[1:], raw[:2], raw[:3]))
+                injections.append([round(rng.uniform(0.1, 0.4), 4), "short_frame", content.hex()])
+    elif kind == "flush_on_connect":
         # everything is queued before the connection exists; when it comes up the queue is flushed, requests that
         # expect no reply complete as they are written, and their callbacks cancel / issue / disconnect in the
         # middle of the flush
@@ -348,7 +372,7 @@ def pattern_scenario(seed):
         end = "close"
     actions.sort(key=lambda a: a[0])
     return dict(seed=seed, ids=ids, on_fire=on_fire, extra_ids=[], unwritable=[], actions=actions, behaviour=behaviour,
-                injections=[], connect=connect, cuts=cuts, end=end, horizon=horizon, pattern=kind,
+                injections=injections, connect=connect, cuts=cuts, end=end, horizon=horizon, pattern=kind,
                 latency=rng.choice((0.0, 0.002, 0.02)) if force_latency is None else force_latency,
                 chunk=rng.choice(("whole", "bytes", "random")),
                 retry_base=rng.choice((0.05, 0.2)), retry_step=rng.choice((0.0, 0.07)))
@@ -479,6 +503,8 @@ def run_scenario(sc, ghost=False, debug=False):
                 clock.labelled(t, "srv.inject_cancelled", inj)
             elif kind == "unknown_id":
                 clock.labelled(t, "srv.inject_unknown", server.inject, "unknown_id", rid)
+            elif kind == "short_frame":
+                clock.labelled(t, "srv.inject_short_frame", server.inject, "short_frame", rid)
             else:
                 clock.labelled(t, "srv.inject_oversize", server.inject, "oversize")
         tr.capped = False
